@@ -438,6 +438,9 @@ pub fn drive(s: &Arc<Sched>, policy: &Policy, rng: &mut crate::types::Rng, budge
     let mut solo_blocked: Option<String> = None;
     let mut solo_done = false;
     let mut script_pos = 0usize;
+    // steps spent in the current script step: a step whose thread only spins (it waits for a
+    // thread the script holds back) is abandoned after a while
+    let mut script_spent = 0usize;
     loop {
         let unfinished = s.unfinished();
         if unfinished.is_empty() {
@@ -504,10 +507,12 @@ pub fn drive(s: &Arc<Sched>, policy: &Policy, rng: &mut crate::types::Rng, budge
                             g.trace.iter().filter(|e| e.tid == st.tid && e.kind == *kind && e.ok && e.what.contains(what) && rel_holds(*rel, e.a, e.b)).count() >= *count
                         }
                     };
-                    if met || !unfinished.contains(&st.tid) || !en.contains(&st.tid) {
+                    if met || !unfinished.contains(&st.tid) || !en.contains(&st.tid) || script_spent > 20_000 {
                         script_pos += 1;
+                        script_spent = 0;
                         continue;
                     }
+                    script_spent += 1;
                     pick = Some(st.tid);
                     break;
                 }
